@@ -6,7 +6,7 @@ from rules import regex_rules
 def run(m, tier):
     results = [rr.rule_quote_state(m, "C04.R1"), rr.rule_semicolon(m, "C04.R2"), rr.rule_splitquote(m, "C04.R4"),
                regex_rules.label_name_rules(m, "C04.R5"), rr.rule_queue(m, "C04.R6"), rr.rule_literal_folding(m, "C04.R7"),
-               rr.rule_continuation(m, "C04.R8")]
+               rr.rule_continuation(m, "C04.R8"), rr.rule_inline_table(m, "C04.R9")]
     from rules import taint_rules
     results += taint_rules.c04_rules(m)
     expl = ("Decides structural necessary conditions of layout independence: the quote state returned by handle_inline_comment is "
